@@ -213,12 +213,13 @@ def run_constant_liar(inp):
     _ = pred.points_sampled_value, pred.points_sampled_noise_variance, pred.best_observed_value
   af = ExpectedImprovement(pred)
   dom = CategoricalDomain([{"var_type": "double", "elements": [-64.0, 64.0]} for _ in range(d)])
-  seen, calls = [], [0]
+  seen, calls, shared = [], [0], [False]
   scripted = inp.get("picks")
 
   def stub(es_opt, gd_opt, pretest):
     a = es_opt.af
-    assert a is gd_opt.af and a is not af, "optimisers must work on the copy"
+    if a is af or gd_opt.af is af:          # the optimisers were handed the caller's object instead of a copy
+      shared[0] = True
     p = a.predictor
     seen.append(dict(num=int(p.num_sampled), pts=tolist2(p.points_sampled), vals=[float(x) for x in p.points_sampled_value],
                      noise=[float(x) for x in p.points_sampled_noise_variance]))
@@ -234,7 +235,9 @@ def run_constant_liar(inp):
   finally:
     afo.vectorized_acquisition_optimization = orig
   after = snap(af)
-  return dict(picks=tolist2(pts), seen=seen, unchanged=(before == after), detail=None if before == after else diff_snap(before, after))
+  same = before == after and not shared[0]
+  return dict(picks=tolist2(pts), seen=seen, unchanged=same,
+              detail=None if same else ("optimisers were handed the caller's object" if shared[0] else diff_snap(before, after)))
 
 
 # ------------------------------------------------------------------------------------------ search with a stub optimiser
